@@ -5,6 +5,7 @@ import (
 	"bytes"
 	"fmt"
 	"io"
+	"path/filepath"
 	"testing"
 
 	"pgregory.net/rapid"
@@ -24,6 +25,10 @@ type Case struct {
 	Desc  string `json:"desc"`
 	Data  []byte `json:"data"`
 	Sizes []int  `json:"sizes"`
+	// Std != "": autometa reads from a standard-library reader of that dynamic type positioned after Prefix
+	// unrelated bytes (the reference loaders always read the bare input)
+	Std    string `json:"std,omitempty"`
+	Prefix int    `json:"prefix,omitempty"`
 }
 
 func check(c Case) (kind, what string, nt bool) {
@@ -48,7 +53,14 @@ func check(c Case) (kind, what string, nt bool) {
 		nt = true
 	}
 	s := &src.Source{Data: c.Data, FaultAt: -1, Sizes: c.Sizes}
-	a := ld.Run("auto", s)
+	var a ld.Outcome
+	if c.Std != "" {
+		r, _, cleanup := src.Std(c.Std, c.Prefix, c.Data, filepath.Join(ev.Root(), "out", "run", "C19"))
+		defer cleanup()
+		a = ld.Run("auto", r)
+	} else {
+		a = ld.Run("auto", s)
+	}
 	if a.Panic != "" {
 		return "panic", a.Panic, nt
 	}
@@ -131,8 +143,11 @@ func TestC19(t *testing.T) {
 	bad := map[string]bool{}
 	for _, sd := range all {
 		d := sd.Data
-		for _, sizes := range [][]int{nil, {1}, {4097}} {
+		for si, sizes := range [][]int{nil, {1}, {4097}, nil, nil} {
 			c := Case{Desc: sd.Name, Data: d, Sizes: sizes}
+			if si >= 3 {
+				c.Std, c.Prefix = src.StdKinds[(len(d)+si)%len(src.StdKinds)], []int{27, 4096}[si-3]
+			}
 			ev.Eval(1)
 			k, w, nt := check(c)
 			if nt {
@@ -205,6 +220,9 @@ func TestC19(t *testing.T) {
 		}
 		if rapid.Bool().Draw(rt, "short") {
 			c.Sizes = rapid.SliceOfN(rapid.IntRange(1, 5000), 1, 4).Draw(rt, "sizes")
+		} else if rapid.Bool().Draw(rt, "stdreader") {
+			c.Std = rapid.SampledFrom(src.StdKinds).Draw(rt, "stdkind")
+			c.Prefix = rapid.SampledFrom([]int{0, 1, 27, 100, 4096}).Draw(rt, "prefix")
 		}
 		ev.Eval(1)
 		k, w, nt := check(c)
